@@ -145,6 +145,25 @@ pub fn gen_with(rng: &mut Rng, long: bool, clean_restarts: bool) -> Program {
             ops.insert(at + j, m);
         }
     }
+    // racing histories, half of them: the motif "write k, incremental snapshot released, remove k, write k again" --
+    // the commands that race with the snapshot bring the key back to the version and state the snapshot thread
+    // copied, with another value (what it marks as persisted must be what it wrote)
+    if race_incremental && rng.chance(1, 2) {
+        let db = rng.below(ndbs as u64) as usize;
+        let key = KEYS[rng.below(nkeys as u64) as usize].to_string();
+        let at = rng.below(ops.len() as u64 + 1) as usize;
+        let mut motif = Vec::new();
+        if rng.chance(1, 2) {
+            motif.push(Op::Remove { db, key: key.clone() });
+        }
+        motif.push(if rng.chance(2, 3) { Op::Set { db, key: key.clone(), val: gen_value(rng, &mut uniq) } } else { Op::Inc { db, key: key.clone(), by: 4 } });
+        motif.push(Op::SnapRace { db, reclaim: false });
+        motif.push(Op::Remove { db, key: key.clone() });
+        motif.push(if rng.chance(2, 3) { Op::Set { db, key: key.clone(), val: gen_value(rng, &mut uniq) } } else { Op::Inc { db, key: key.clone(), by: 5 } });
+        for (j, m) in motif.into_iter().enumerate() {
+            ops.insert(at + j, m);
+        }
+    }
     // every history ends with a snapshot and a restart so that something is always checked
     let db = rng.below(ndbs as u64) as usize;
     ops.push(Op::Snapshot { db, reclaim: rng.chance(1, 3) });
